@@ -963,14 +963,38 @@ def _index_many_to_one(
         return constructor(array, name=name, index_constructors=index_constructors) #type: ignore
     return constructor(array, name=name) #type: ignore
 
+_EPOCH_DATE = datetime.date(1970, 1, 1)
+_EPOCH_DATETIME = datetime.datetime(1970, 1, 1)
+
+def _label_to_hashable(label: tp.Hashable) -> tp.Hashable:
+    '''
+    A date-like label as microseconds since the epoch, so that a datetime64 label of any unit and the date / datetime objects it compares equal to hash alike; other labels are returned as they are.
+    '''
+    if isinstance(label, np.datetime64):
+        return label.astype('datetime64[us]').astype(np.int64).item()
+    if isinstance(label, datetime.datetime):
+        if label.tzinfo is None:
+            delta = label - _EPOCH_DATETIME
+            return (delta.days * 86_400 + delta.seconds) * 1_000_000 + delta.microseconds
+        return label
+    if isinstance(label, datetime.date):
+        return (label - _EPOCH_DATE).days * 86_400_000_000
+    return label
+
 def index_to_hashable(index: 'IndexBase') -> tp.Tuple[tp.Hashable, ...]:
     '''
-    The labels of an index as a tuple of Python objects (label tuples for hierarchical indices), for hashing: datetime64 labels are given as the date / datetime objects they compare equal to.
+    The labels of an index as a tuple of hashables (label tuples for hierarchical indices), for hashing: indices that compare equal give equal tuples, whatever the unit or class (datetime64, date objects) date-like labels are held in.
     '''
-    labels = index.values.tolist()
+    values = index.values # 1D, or 2D for hierarchical indices
+    if values.dtype.kind == 'O':
+        if index.depth == 1:
+            return tuple(_label_to_hashable(label) for label in values)
+        return tuple(tuple(_label_to_hashable(e) for e in label) for label in values)
+    if values.dtype.kind == 'M':
+        values = values.astype('datetime64[us]').astype(np.int64)
     if index.depth == 1:
-        return tuple(labels)
-    return tuple(tuple(label) for label in labels)
+        return tuple(values.tolist())
+    return tuple(tuple(label) for label in values.tolist())
 
 def index_many_concat(
         indices: tp.Iterable[IndexBase],
